@@ -59,7 +59,7 @@ class Snap:
 
     def __init__(self, graph_model):
         self.gid = graph_model.graph_id
-        nxg = graph_model.storage.extract_graph(self.gid)
+        nxg = store.observe_storage(graph_model.storage, self.gid)
         self.nodes, self.adj, self.problems = {}, {}, []
         self.edge_props = {}
         if nxg is None:
@@ -382,16 +382,16 @@ class Interp:
 
     @staticmethod
     def peering(s):
-        """pairs of top-level services joined ServicePort-Link-ServicePort"""
+        """pairs of services (top-level or owned by a node) joined ServicePort-Link-ServicePort"""
         out = []
-        for a in s.top_services():
+        for a in s.ids(CLS_NS):
             for cp in s.cps_of_service(a):
                 if s.typ(cp) != "ServicePort":
                     continue
                 for p in s.peers_of_cp(cp):
                     if s.typ(p) == "ServicePort":
                         for b in s.service_of_cp(p):
-                            if b != a and not s.owner_of_service(b):
+                            if b != a:
                                 out.append((a, b))
         return sorted(set(out))
 
@@ -648,6 +648,9 @@ class Interp:
 
     def op_peer(self, op, s, info):
         tops = s.top_services()
+        if op.get("any"):
+            # peer() accepts any two services: also those a facility, a switch or a node owns
+            tops = tops + [x for x in s.owned_services() if s.cls(s.owner_of_service(x)[0]) == CLS_NODE]
         if len(tops) < 2:
             raise Skip()
         a = tops[op["a"] % len(tops)]
@@ -940,6 +943,7 @@ def op_add_link(names=_name_fresh, ids=_id_spec):
 op_connect = st.fixed_dictionaries({"op": st.just("connect"), "svc": _k, "if": _k, "h": _h})
 op_disconnect = st.fixed_dictionaries({"op": st.just("disconnect"), "k": _k, "h": _h})
 op_peer = st.fixed_dictionaries({"op": st.just("peer"), "a": _k, "b": _k, "h": _h,
+                                 "any": st.sampled_from([False, False, True]),
                                  "props": st.fixed_dictionaries({}, optional={"labels": _labels,
                                                                               "capacities": _caps})})
 op_unpeer = st.fixed_dictionaries({"op": st.just("unpeer"), "k": _k, "h": _h})
